@@ -13,6 +13,7 @@
                              (C10_sep_replaced_rejected below, Part B). *)
 From Coq Require Import List Arith NArith.
 From Verif Require Import ChecksumModel ChecksumSpec ChecksumTheorems ExprTreeModel ExprTreeTotal ExprTreeRt ExprTreeGrammar.
+From Verif Require Import TypeCheck MsTextModel MsTextProofs.
 Import ListNotations.
 Local Open Scope N_scope.
 
@@ -121,6 +122,118 @@ Theorem C10_sep_replaced_rejected : forall p cs x nodes,
   rejected_t (from_str_inner (p ++ x :: cs)).
 Proof. exact sep_replaced_rejected_lemma. Qed.
 Print Assumptions C10_sep_replaced_rejected.
+
+(* ---------------------------------------------------------------------------------------------
+   Part C (miniscript text layer): model Ms/MsTextModel.v of `Display for Terminal` ([to_tree]; the
+   text is [print (to_tree m)]) and of `FromTree for Miniscript` ([from_tree], the loop over the
+   right-to-left post order with its stack), tied to the real printer and parser on every run by
+   Tables/MsTextCasesCheck.v.  Keys and hashes are opaque atoms: the theorems hold for every
+   printer/parser pair with `parse (print x) = Some x`; `Miniscript::from_ast` is an arbitrary
+   boolean [chk] (instantiated with the type check for the tie), so the statements are about the
+   layer below the type system and hold for every such check.
+
+   ms_rt, printing side: every AST whose thresholds and lock times are in the ranges the parser
+   enforces and whose composite nodes pass from_ast ([ms_text_ok]) is parsed back from its printed
+   tree: sugar (pk, pkh, t: l: u:, and_n), wrapper prefixes and argument lists are unambiguous. *)
+Theorem C10_ms_print_parse :
+  forall (print_key : key -> tbytes) (parse_key : tbytes -> option key)
+         (print_hash : hkind -> tbytes -> tbytes) (parse_hash : hkind -> tbytes -> option tbytes)
+         (chk : ms -> bool),
+  (forall k, parse_key (print_key k) = Some k) ->
+  (forall h b, parse_hash h (print_hash h b) = Some b) ->
+  forall m, ms_text_ok chk m = true ->
+  from_tree parse_key parse_hash chk (to_tree print_key print_hash m) = Ok m.
+Proof. exact print_parse. Qed.
+Print Assumptions C10_ms_print_parse.
+
+(* ms_rt, parsing side: whatever from_tree accepts (any tree: any spelling, any wrapper prefix) is
+   an AST that its own printed form parses back to, and printing that again gives the same tree:
+   one parse reaches a fixed point of print/parse.  (Uses [parse_valid]: every AST the parser
+   returns satisfies [ms_text_ok].) *)
+Theorem C10_ms_print_fixpoint :
+  forall (print_key : key -> tbytes) (parse_key : tbytes -> option key)
+         (print_hash : hkind -> tbytes -> tbytes) (parse_hash : hkind -> tbytes -> option tbytes)
+         (chk : ms -> bool),
+  (forall k, parse_key (print_key k) = Some k) ->
+  (forall h b, parse_hash h (print_hash h b) = Some b) ->
+  forall t m, from_tree parse_key parse_hash chk t = Ok m ->
+  from_tree parse_key parse_hash chk (to_tree print_key print_hash m) = Ok m /\
+  (forall m', from_tree parse_key parse_hash chk (to_tree print_key print_hash m) = Ok m' ->
+              to_tree print_key print_hash m' = to_tree print_key print_hash m).
+Proof. exact print_fixpoint. Qed.
+Print Assumptions C10_ms_print_fixpoint.
+
+(* the parser's own checks: every AST it returns is within the printable range *)
+Theorem C10_ms_parse_valid :
+  forall (parse_key : tbytes -> option key) (parse_hash : hkind -> tbytes -> option tbytes) (chk : ms -> bool)
+         t m, from_tree parse_key parse_hash chk t = Ok m -> ms_text_ok chk m = true.
+Proof. exact parse_valid. Qed.
+Print Assumptions C10_ms_parse_valid.
+
+(* alias_meaning: sugar and aliases parse to the same AST as their expansions.  [to_tree_sp sp m]
+   writes m with, at every node that has two spellings, the sugar ([sp] true: pk(K), pkh(K), t:X,
+   l:X, u:X, and_n(X,Y)) or the expansion ([sp] false: c:pk_k(K), c:pk_h(K), and_v(X,1), or_i(0,X),
+   or_i(X,0), andor(X,Y,0)), independently per node and at any nesting depth; all 2^n mixed spellings
+   parse to m (so any two of them parse to the same AST).  [ms_all_ok] = [ms_text_ok] plus from_ast
+   at c:pk_k / c:pk_h, which only the expanded spelling evaluates.  Stated for trees of this shape
+   (children spelled by the same rule), not for arbitrary malformed subtrees. *)
+Theorem C10_ms_alias_meaning :
+  forall (print_key : key -> tbytes) (parse_key : tbytes -> option key)
+         (print_hash : hkind -> tbytes -> tbytes) (parse_hash : hkind -> tbytes -> option tbytes)
+         (chk : ms -> bool),
+  (forall k, parse_key (print_key k) = Some k) ->
+  (forall h b, parse_hash h (print_hash h b) = Some b) ->
+  forall (sp : ms -> bool) m, ms_all_ok chk m = true ->
+  from_tree parse_key parse_hash chk (to_tree_sp print_key print_hash sp m) = Ok m.
+Proof. exact alias_meaning. Qed.
+Print Assumptions C10_ms_alias_meaning.
+
+(* non-vacuity: an instance of the parameters that satisfies the hypotheses (keys printed in
+   decimal, hashes verbatim, from_ast = the type check), and a typed miniscript with sugar,
+   wrappers, a threshold, a multi and both lock kinds:
+   "and_v(v:pk(1),and_v(v:older(9),thresh(2,pkh(2),s:pk(3),a:and_n(multi(1,4,5),tv:after(7)),al:pk(6))))" *)
+Definition ex_chk (m : ms) : bool := match type_of m with ROk _ => true | RErr _ => false end.
+Definition ex_parse_key (s : tbytes) : option key := dval s 0.
+Definition ex_ms : ms :=
+  MAndV (MVerify (MCheck (MPkK 1)))
+   (MAndV (MVerify (MOlder 9))
+        (MThresh 2 [MCheck (MPkH 2); MSwap (MCheck (MPkK 3));
+                    MAlt (MAndOr (MMulti 1 [4; 5]) (MAndV (MVerify (MAfter 7)) MTrue) MFalse);
+                    MAlt (MOrI MFalse (MCheck (MPkK 6)))])).
+Example C10_ms_nonvacuous :
+  (forall k, ex_parse_key (dec k) = Some k) /\
+  (forall (h : hkind) (b : tbytes), (fun _ s => Some s) h ((fun _ s => s) h b) = Some b) /\
+  ms_text_ok ex_chk ex_ms = true /\
+  print (to_tree dec (fun _ s => s) ex_ms) =
+    [97;110;100;95;118;40;118;58;112;107;40;49;41;44;97;110;100;95;118;40;118;58;111;108;100;101;114;40;57;41;
+     44;116;104;114;101;115;104;40;50;44;112;107;104;40;50;41;44;115;58;112;107;40;51;41;44;97;58;97;110;100;
+     95;110;40;109;117;108;116;105;40;49;44;52;44;53;41;44;116;118;58;97;102;116;101;114;40;55;41;41;44;97;
+     108;58;112;107;40;54;41;41;41;41] /\
+  from_tree ex_parse_key (fun _ s => Some s) ex_chk (to_tree dec (fun _ s => s) ex_ms) = Ok ex_ms.
+Proof.
+  split; [exact dval_dec|]. split; [reflexivity|].
+  split; [vm_compute; reflexivity|]. split; vm_compute; reflexivity.
+Qed.
+
+(* the same AST in the fully expanded spelling and in a mixed one: different trees, same parse *)
+Example C10_ms_alias_nonvacuous :
+  ms_all_ok ex_chk ex_ms = true /\
+  print (to_tree_sp dec (fun _ s => s) (fun _ => false) ex_ms) =
+    (* "and_v(vc:pk_k(1),and_v(v:older(9),thresh(2,c:pk_h(2),sc:pk_k(3),a:andor(multi(1,4,5),and_v(v:after(7),1),0),a:or_i(0,c:pk_k(6)))))" *)
+    [97;110;100;95;118;40;118;99;58;112;107;95;107;40;49;41;44;97;110;100;95;118;40;118;58;111;108;100;101;114;
+     40;57;41;44;116;104;114;101;115;104;40;50;44;99;58;112;107;95;104;40;50;41;44;115;99;58;112;107;95;107;
+     40;51;41;44;97;58;97;110;100;111;114;40;109;117;108;116;105;40;49;44;52;44;53;41;44;97;110;100;95;118;
+     40;118;58;97;102;116;101;114;40;55;41;44;49;41;44;48;41;44;97;58;111;114;95;105;40;48;44;99;58;112;
+     107;95;107;40;54;41;41;41;41;41] /\
+  to_tree_sp dec (fun _ s => s) (fun _ => true) ex_ms = to_tree dec (fun _ s => s) ex_ms /\
+  to_tree_sp dec (fun _ s => s) (fun _ => false) ex_ms <> to_tree dec (fun _ s => s) ex_ms /\
+  from_tree ex_parse_key (fun _ s => Some s) ex_chk (to_tree_sp dec (fun _ s => s) (fun _ => false) ex_ms) = Ok ex_ms /\
+  from_tree ex_parse_key (fun _ s => Some s) ex_chk
+    (to_tree_sp dec (fun _ s => s) (fun m => match m with MAndV _ _ => true | _ => false end) ex_ms) = Ok ex_ms.
+Proof.
+  split; [vm_compute; reflexivity|]. split; [vm_compute; reflexivity|]. split; [vm_compute; reflexivity|].
+  split; [vm_compute; discriminate|]. split; vm_compute; reflexivity.
+Qed.
 
 (* ---- non-vacuity of the tree theorems: "a(b,c{d})" *)
 Definition ex_tree : etree :=
